@@ -152,7 +152,8 @@ namespace
                     else
                         o.maxRequestSize(limit);
 #pragma GCC diagnostic pop
-                });
+                },
+                         /* setHandler() before init() for two of the four */ limit == 256 || limit == 4096);
             }
             return *s;
         }
